@@ -189,7 +189,8 @@ def eval_terms(name, imports, defs, terms, timeout=900):
     results = []
     try:
         if rc != 0:
-            raise RuntimeError('coqc failed on generated cases: ' + out[-3000:])
+            k = out.rfind('Error')
+            raise RuntimeError('coqc failed on generated cases: ' + out[:300] + ' ... ' + out[max(0, k - 200):k + 1500])
         for i in range(len(terms)):
             txt = open(os.path.join(d, f'r{i}.out')).read()
             txt = ' '.join(txt.split())
